@@ -743,24 +743,11 @@ def mkPair (id stratum : String) (da db : V) (srcA srcB ctx : String) (kfs : Lis
       payload := [srcA, srcB, if hasCtx then ctx else "", flags] }
   if superimposed da || superimposed db then [mk id "KF-superimposed" (if pos then "eqscdrlgfF" else "eqscd")]
   else if bytesHoles da || bytesHoles db then [mk id "KF-bytes-holes" (if pos then "eqscdfF" else "eqscd")]
-  else match kfs with
-    | k :: _ => [mk id k (if pos then "eqscdrlgfF" else "eqscd")]
-    | [] =>
-      if !pos then [mk id "good" "eqscd"] else
-      -- observables that run into C06's findings are split off into a case of their own class
-      let nb := bytesCount da
-      let trap := lessTrap da
-      let nu := unionRelCount da
-      let dropLG := nb ≥ 1 || trap || nu ≥ 1
-      let dropR := nb ≥ 2 || trap || nu ≥ 2
-      let flags := String.ofList ("eqscdrlgfF".toList.filter (fun c =>
-        !((dropLG && (c == 'l' || c == 'g')) || (dropR && c == 'r'))))
-      let sharp := mk id "good" flags
-      let kfBytes := if nb ≥ 1 then [mk (id ++ "b") "KF-bytes-less" (if nb ≥ 2 then "lgr" else "lg")] else []
-      let kfTrap := if trap && nb == 0 then [mk (id ++ "t") "KF-less-inconsistent" "lgr"] else []
-      let kfUnion := if nu ≥ 1 && nb == 0 && !trap then
-        [mk (id ++ "u") "KF-union-less-panic" (if nu ≥ 2 then "lgr" else "lg")] else []
-      sharp :: (kfBytes ++ kfTrap ++ kfUnion)
+  else
+    -- the classes of C01/C05/C06 findings (string `with` fallback, duplicated string member, Less panics and
+    -- inconsistencies) were dropped when their repairs were merged: `kfs` is no longer consulted
+    let _ := kfs
+    if !pos then [mk id "good" "eqscd"] else [mk id "good" "eqscdrlgfF"]
 
 def mkRep (id stratum : String) (da db : V) (srcA srcB : String) : Case :=
   { id := id, cls := "good", kind := "rep", stratum := stratum,
